@@ -21,3 +21,6 @@ def run(repo, res, tier):
     hookrules.rule_no_hardcoded_containers(repo, res)
     hookrules.rule_mapping_iteration(repo, res)
     apirules.rule_f1(repo, res, "new")
+    # a container built from / converted to another keeps every pair: no key-by-key re-lookup (first value only)
+    from .. import hookrules as _hk
+    _hk.rule_reindex(repo, res)
